@@ -259,6 +259,16 @@ def lc_cases(fn_node: ast.FunctionDef, lc: str, target: str):
     return out
 
 
+def lc_from_raw(rep: Report, kernels, rule: str = "R-FORMULA"):
+    """The 3-d driver computes the lag-1 correlation from the raw pixel series with its nodata marker (not from the zero-filled working copy,
+    whose gaps count as observations of 0 and make the grid choice depend on the level of the data). Shared with C06 (offset commutation)."""
+    d = kernel(kernels, "ws2doptvplc_tyx")
+    lcdef = [x for x in ast.walk(d.node) if isinstance(x, ast.Assign) and ast.unparse(x.targets[0]) == "lc"]
+    rep.ob(rule, d.file, "ws2doptvplc_tyx", "the driver derives lc from the pixel's own raw series", len(lcdef) == 1 and
+           ast.unparse(lcdef[0].value) == "autocorr_1d(xx_raw, nodata)", f"{[norm_stmt(x) for x in lcdef]}: the zero-filled working series counts its gaps as "
+           f"observations of 0, so lc (and with it the lambda grid) changes when a constant is added to the data", lcdef[0] if lcdef else "lc = autocorr_1d(...)")
+
+
 def run(repo: Repo, tier: str) -> Report:
     rep = Report("C04")
     rep.decided = [
@@ -316,9 +326,7 @@ def run(repo: Repo, tier: str) -> Report:
     for c in ("gt", "le", "un"):
         rep.ob("R-SIBLING(grid)", d.file, "ws2doptvplc_tyx", names[c], dn.get(c) == want[c], f"grid for this case: {dc.get(c)} -> {dn.get(c)} ; required {want[c]}",
                f"llas[{c}] = {dn.get(c)}")
-    lcdef = [x for x in ast.walk(d.node) if isinstance(x, ast.Assign) and ast.unparse(x.targets[0]) == "lc"]
-    rep.ob("R-FORMULA", d.file, "ws2doptvplc_tyx", "the driver derives lc from the pixel's own raw series", len(lcdef) == 1 and
-           ast.unparse(lcdef[0].value) == "autocorr_1d(xx_raw, nodata)", f"{[norm_stmt(x) for x in lcdef]}", lcdef[0] if lcdef else "lc = autocorr_1d(...)")
+    lc_from_raw(rep, kernels)
     call = [c for c in ast.walk(d.node) if isinstance(c, ast.Call) and ast.unparse(c.func) == "_ws2doptvp"]
     rep.ob("R-BIND", d.file, "ws2doptvplc_tyx", "the driver calls the helper with (series, mask, p, grid)", len(call) == 1 and
            [ast.unparse(a) for a in call[0].args] == ["xx", "ww", "p", "llas"], f"{[ast.unparse(c) for c in call]}", call[0] if call else "_ws2doptvp(...)")
